@@ -2,6 +2,7 @@
 // @id C17.arithmetic
 // @engine B
 // @entry vfh_C17_arith
+// @shared_state_watch
 // @tier Q
 // @opts max_steps=30000000
 // @reach basic.ran
@@ -13,6 +14,7 @@
 // @id C17.compare_logic
 // @engine B
 // @entry vfh_C17_logic
+// @shared_state_watch
 // @tier Q
 // @opts max_steps=30000000
 // @reach basic.ran
@@ -22,6 +24,7 @@
 // @id C17.for_next
 // @engine B
 // @entry vfh_C17_for
+// @shared_state_watch
 // @tier Q
 // @opts max_steps=40000000
 // @reach basic.ran
@@ -31,6 +34,7 @@
 // @id C17.string_arrays
 // @engine B
 // @entry vfh_C17_strings
+// @shared_state_watch
 // @tier Q
 // @opts max_steps=40000000
 // @reach basic.ran
@@ -41,6 +45,7 @@
 // @also C17
 // @engine B
 // @entry vfh_C05_user_punch
+// @shared_state_watch
 // @tier Q
 // @opts max_steps=40000000
 // @reach basic.ran
